@@ -490,8 +490,8 @@ def example(p, rng, exact=True):
         elif not exact and rng.random() < 0.4:
             items.append('0')
         body = ', '.join(items)
-        wrap = rng.choice(['list', 'list', 'tuple', 'tuple', 'deque', 'Seq', 'RegSeq', 'ListSub', 'TupSub', 'NotSeq', 'range?',
-                           'LenRaise', 'GetRaise'] if rng.random() < 0.5 else ['list', 'tuple'])
+        wrap = rng.choice(['list', 'list', 'tuple', 'tuple', 'deque', 'Seq', 'RegSeq', 'ListSub', 'TupSub', 'NotSeq', 'range?']
+                          if rng.random() < 0.5 else ['list', 'tuple'])
         if wrap == 'list':
             return '[%s]' % body
         if wrap == 'tuple':
@@ -566,8 +566,7 @@ GENERIC_SUBJECTS = [
     'collections.deque([1, 2])', "{'a': 1}", "{'a': 1, 'b': 2}", '{}', '{1: 2, None: 3}', "M.DictSub({'a': 1})",
     'M.Point(1, 2)', 'M.P3(1, 2, 3)', 'M.DC(1, 2)', 'M.DC([1, 2], {"a": 1})', 'M.LA(x=1, y=2)', 'M.LA(x=1)', 'M.LARaise(x=1)',
     'M.BadArgs()', 'M.DupArgs()', 'M.NoArgs()', 'M.StrArgs()', 'M.Color.RED', 'M.Color.GREEN', 'M.EqLog(1)', "M.EqLog('a')",
-    'M.EqRaise()', 'M.Seq([1, 2])', 'M.Seq([])', 'M.RegSeq([1, 2])', 'M.NotSeq([1, 2])', 'M.LenRaise([1, 2])',
-    'M.GetRaise([1, 2])', "M.Map({'a': 1})", "M.MapGetLog({'a': 1, 'b': 2})", "M.MapGetRaise({'a': 1})", "M.RegMap({'a': 1})",
+    'M.EqRaise()', 'M.Seq([1, 2])', 'M.Seq([])', 'M.RegSeq([1, 2])', 'M.NotSeq([1, 2])', "M.Map({'a': 1})", "M.MapGetLog({'a': 1, 'b': 2})", "M.MapGetRaise({'a': 1})", "M.RegMap({'a': 1})",
     "M.StrSub('a')", 'M.IntSub(1)', 'M.ListSub([1, 2])', 'M.TupSub((1, 2))', "types.MappingProxyType({'a': 1})",
     'array.array("i", [1, 2])', 'memoryview(b"ab")', '{1, 2}', 'frozenset({1})', 'iter([1, 2])', '(x for x in [1, 2])',
     'object()', 'NotImplemented', '...', '1 == 1', 'float("nan")',
@@ -609,4 +608,57 @@ def gen_function(rng, idx, ncases_max=4, maxdepth=3):
         if c['guard'] is not None:
             kinds.add('guard')
     src = '\n'.join(lines) + '\n'
-    return {'name': name, 'src': src, 'cases': cases, 'kinds': sorted(kinds), 'wild_as': '_ as ' in src}
+    feats = set()
+    for c in cases:
+        features(c['pattern'], feats)
+    return {'name': name, 'src': src, 'cases': cases, 'kinds': sorted(kinds), 'wild_as': '_ as ' in src,
+            'features': sorted(feats)}
+
+
+class _Stub:
+    class Color:
+        RED = ('Color.RED',)
+        GREEN = ('Color.GREEN',)
+
+
+def features(p, acc):
+    """structural features that make a pattern invalid at run time or bind through `as`"""
+    k = p[0]
+    if k == 'seq':
+        for x in p[1]:
+            features(x, acc)
+    elif k == 'map':
+        vals = []
+        for kt, ke, sp in p[1]:
+            v = eval(ke, {'M': _Stub})
+            if any(v == w for w in vals):
+                acc.add('duplicate-mapping-keys')
+            vals.append(v)
+            features(sp, acc)
+    elif k == 'cls':
+        c = p[1]
+        if c in BUILTIN_SELF:
+            if len(p[2]) > 1:
+                acc.add('invalid-class-pattern')
+        else:
+            posnames = CLASSES.get(c, ([], []))[0]
+            if c not in CLASSES and p[2]:
+                acc.add('invalid-class-pattern')       # BadArgs / DupArgs / NoArgs / StrArgs with positional sub-patterns
+            if len(p[2]) > len(posnames) and c in CLASSES:
+                acc.add('invalid-class-pattern')
+            kwn = [n for n, x in p[3]]
+            if len(set(kwn)) != len(kwn) or set(kwn) & set(posnames[:len(p[2])]):
+                acc.add('invalid-class-pattern')
+        for x in p[2]:
+            features(x, acc)
+        for n, x in p[3]:
+            features(x, acc)
+    elif k == 'or':
+        for a in p[1]:
+            features(a, acc)
+    elif k == 'as':
+        if p[1][0] in ('lit', 'val'):
+            acc.add('as-over-value-pattern')
+        if p[1][0] == 'or' and any(a[0] in ('lit', 'val') for a in p[1][1]):
+            acc.add('as-over-value-pattern')
+        features(p[1], acc)
